@@ -48,14 +48,17 @@ Definition cigar := list (cop * nat).
                        starting inside an insertion, or N followed by I): false = the code as it was (queues the insertion variant
                        at that I operation; a partial insertion does not match, the empty REF allele is reported),
                        true = the code now (skips it; fix: 22e7aa7). *)
+(*   r_sym_noref       detect_non_overlapping_variants (reference-free path): false = the code as it was (a symbolic ALT such
+                       as <DEL> is taken as literal text, i.e. a 4-base insertion: every spanning read is called REF),
+                       true = the code now (fix b8437fb: symbolic records are left out, as re-alignment does) *)
 Record rules := mkRules { r_skip_consumed : bool; r_ins_left_flank : bool; r_pair_keep_mate : bool;
-                          r_ins_span : bool; r_distance : bool; r_ins_flank_at_ins : bool }.
-Definition original_rules := mkRules false false false false false false.
-Definition current_rules := mkRules true true true true true true.
-Definition repaired_rules := mkRules true true true true true true.
+                          r_ins_span : bool; r_distance : bool; r_ins_flank_at_ins : bool; r_sym_noref : bool }.
+Definition original_rules := mkRules false false false false false false false.
+Definition current_rules := mkRules true true true true true true true.
+Definition repaired_rules := mkRules true true true true true true true.
 (* all rules repaired except number k *)
 Definition all_but (k : nat) : rules :=
-  mkRules (negb (k =? 0)) (negb (k =? 1)) (negb (k =? 2)) (negb (k =? 3)) (negb (k =? 4)) (negb (k =? 5)).
+  mkRules (negb (k =? 0)) (negb (k =? 1)) (negb (k =? 2)) (negb (k =? 3)) (negb (k =? 4)) (negb (k =? 5)) (negb (k =? 6)).
 
 Record variant := mkVar { vpos : nat; vref : list Z; valt : list Z }.
 
@@ -230,22 +233,23 @@ Definition normalized (v : variant) : variant :=
 
 (* detect_non_overlapping_variants: the valid (non-conflicting) indices.
    skip = Some deletion_end while the inner `while variants[j+1].position < deletion_end` runs *)
-Fixpoint non_overlapping (vs : list ivar) (seen : list nat) (skip : option nat) : list nat :=
+Fixpoint non_overlapping (sym : bool) (vs : list ivar) (seen : list nat) (skip : option nat) : list nat :=
   match vs with
   | [] => []
   | (j, v) :: rest =>
       if match skip with Some d => vpos v <? d | None => false end
-      then non_overlapping rest seen skip
-      else if existsb (Nat.eqb (vpos v)) seen then non_overlapping rest seen None
+      then non_overlapping sym rest seen skip
+      else if existsb (Nat.eqb (vpos v)) seen then non_overlapping sym rest seen None
+      else if sym && is_symbolic v then non_overlapping sym rest (vpos v :: seen) None   (* rule r_sym_noref *)
       else if length (valt v) <? length (vref v) then
         let d := vpos v + length (vref v) in
         match rest with
         | (_, v') :: _ =>
-            if vpos v' <? d then non_overlapping rest (vpos v :: seen) (Some d)
-            else j :: non_overlapping rest (vpos v :: seen) None
+            if vpos v' <? d then non_overlapping sym rest (vpos v :: seen) (Some d)
+            else j :: non_overlapping sym rest (vpos v :: seen) None
         | [] => [j]
         end
-      else j :: non_overlapping rest (vpos v :: seen) None
+      else j :: non_overlapping sym rest (vpos v :: seen) None
   end.
 
 (* AlleleProgress; progress = -1 marks a failed allele *)
@@ -458,7 +462,7 @@ Fixpoint detect_loop (R : rules) (cig : cigar) (query quals : list Z) (variants 
    (`valid_positions[i] < reference_start`) is the same skip again for position-sorted input *)
 Definition detect_noref (R : rules) (variants : list variant) (start : nat) (cig : cigar) (query quals : list Z) : list det :=
   let nv := map normalized variants in
-  let valid := non_overlapping (index_from 0 nv) [] None in
+  let valid := non_overlapping (r_sym_noref R) (index_from 0 nv) [] None in
   let vp := map (fun j => build_var_progress (nth j nv (mkVar 0 [] [])) j) valid in
   detect_loop R cig query quals nv (skip_progress nv vp start) [] false start 0.
 
@@ -1006,3 +1010,11 @@ Fixpoint sorted_strict (vs : list ivar) : Prop :=
   | [] => True
   | x :: r => Forall (fun y : ivar => vpos (snd x) < vpos (snd y)) r /\ sorted_strict r
   end.
+
+(* without reference, records with a symbolic ALT (<DEL>, <DUP>, ...) are never reported *)
+Definition detect_noref_skips_symbolic_statement (R : rules) : Prop :=
+  forall (variants : list variant) (start : nat) (cig : cigar) (query quals : list Z) (j a q : nat) (v : variant),
+  sorted_pos (index_from 0 (map normalized variants)) ->
+  In (j, a, q) (detect_noref R variants start cig query quals) ->
+  nth_error (map normalized variants) j = Some v ->
+  is_symbolic v = false.
